@@ -41,7 +41,7 @@ func harness_C18_report() {
 	fsReset()
 	dir := qDir()
 	maxTries := nondetInt("maxTries", 1, 2)
-	scriptNoVariants, scriptClasses = false, 4
+	scriptNoVariants, scriptClasses = verifParam("variants", 1) == 0, 4
 	tgt := &scriptTarget{name: "tgt", partial: verifParam("partial", 1) == 1}
 	bounce := &scriptTarget{name: "bounce", lenientAbort: true, faultFree: verifParam("bouncefaults", 1) == 0} // may fail at any stage
 	w := &c01Wheel{}
